@@ -14,6 +14,7 @@ import PetgraphModel.Proofs.C08W4Script
 import PetgraphModel.Proofs.C08W4Prefix
 import PetgraphModel.Proofs.C08W4Checks
 import PetgraphModel.Proofs.C08W4SetJudges
+import PetgraphModel.Proofs.C08W6VisitMap
 /-
 C08 — `Dfs`, `Bfs`, `DfsPostOrder`, `Topo`, `depth_first_search` visit what graph theory says.
 Theorems over the mirror models of `Model/Traversal.lean` (tied to /repo by the exact
@@ -876,5 +877,112 @@ example : C08.viewOkB ⟨⟨true, [0, 1], [⟨0, 0, 1, 1⟩]⟩, 2, [], [(0, [(1
     C08.wfB ⟨true, [0, 1], [⟨0, 0, 1, 1⟩]⟩ = true ∧
     C08.closedB ⟨⟨true, [0, 1], [⟨0, 0, 1, 1⟩]⟩, 2, [], [(0, [(1, 0)])], [(1, [(0, 0)])]⟩ = true ∧
     C08.wfB ⟨true, [0, 0], []⟩ = false := by decide
+
+/-! ### wave 6: the corners — `VisitMap` / `reset_map`, visitor return types, API routes
+
+`harness/src/c08/corners.rs` reaches every public way of creating, re-using and copying a walker
+(`new`, `empty`, `Default` + `reset`, a walker around a visit map made for a graph of another size +
+`reset`, `from_parts`, `clone`, `clone_from`, `Walker::walk_next`, `WalkerIter`), every visitor return
+type of `depth_first_search` and the visit maps themselves, on every adaptor over every base type.
+The API routes are judged through the CANONICAL script with the same documented meaning (mirror model +
+the proved judges above); the two genuinely new pieces of semantics are proved here. -/
+
+/-- **`VisitMap` + `Visitable::reset_map`**: the list model the walkers' maps are mirrored by answers
+every sequence of `visit` / `is_visited` / `unvisit` / `reset_map`, started on a fresh or reset map,
+exactly as a SET of nodes does (`VMap.specStep`: `visit` returns "first visit", `unvisit` returns "was
+visited", `reset_map` forgets everything). -/
+theorem C08_visitmap_refines (ops : List VMap.Op) :
+    VMap.run [] ops = VMap.specRun (fun _ => false) ops :=
+  TravProofs.vrun_refines ops [] _ TravProofs.vrel_nil
+
+/-- the same from any state: a map that holds exactly the nodes of `s`. -/
+theorem C08_visitmap_refines_from (m : List Nat) (s : Nat → Bool) (h : ∀ x, x ∈ m ↔ s x = true)
+    (ops : List VMap.Op) : VMap.run m ops = VMap.specRun s ops :=
+  TravProofs.vrun_refines ops m s h
+
+/-- the documented clauses, on the model: `visit a` answers "`a` was not visited" and marks it. -/
+theorem C08_visitmap_visit (m : List Nat) (a : Nat) :
+    (VMap.step m (.visit a)).2 = some (!m.contains a) ∧
+    ∀ x, x ∈ (VMap.step m (.visit a)).1 ↔ x = a ∨ x ∈ m := by
+  by_cases h : a ∈ m
+  · refine ⟨by simp [VMap.step, h], fun x => ?_⟩
+    simp only [VMap.step, List.contains_eq_mem, h, decide_true, if_true]
+    exact ⟨Or.inr, fun hx => hx.elim (fun e => e ▸ h) id⟩
+  · refine ⟨by simp [VMap.step, h], fun x => ?_⟩
+    simp [VMap.step, h]
+
+/-- `unvisit a` answers "`a` was visited" and unmarks `a` and nothing else. -/
+theorem C08_visitmap_unvisit (m : List Nat) (a : Nat) :
+    (VMap.step m (.unvisit a)).2 = some (m.contains a) ∧
+    ∀ x, x ∈ (VMap.step m (.unvisit a)).1 ↔ x ≠ a ∧ x ∈ m := by
+  by_cases h : a ∈ m
+  · refine ⟨by simp [VMap.step, h], fun x => ?_⟩
+    simp only [VMap.step, List.contains_eq_mem, h, decide_true, if_true, List.mem_filter, bne_iff_ne, ne_eq]
+    exact ⟨fun ⟨a, b⟩ => ⟨b, a⟩, fun ⟨a, b⟩ => ⟨b, a⟩⟩
+  · refine ⟨by simp [VMap.step, h], fun x => ?_⟩
+    simp only [VMap.step, List.contains_eq_mem, h, decide_false, Bool.false_eq_true, if_false]
+    exact ⟨fun hx => ⟨fun e => h (e ▸ hx), hx⟩, fun hx => hx.2⟩
+
+/-- `reset_map`: afterwards no node is visited (and, in the model, every node can be visited again:
+`C08_visitmap_visit` has no precondition). -/
+theorem C08_visitmap_reset (m : List Nat) : (VMap.step m .reset).1 = [] := rfl
+
+/-- the model never holds a node twice. -/
+theorem C08_visitmap_nodup (m : List Nat) (h : m.Nodup) (op : VMap.Op) : (VMap.step m op).1.Nodup :=
+  TravProofs.vstep_nodup m h op
+
+/-- what the driver expects for a `vmap` request is the answer of the set specification. -/
+theorem C08_vmap_judge (ops : List VMap.Op) :
+    C08.vmapAnswer ops = C08.joinToks ((VMap.specRun (fun _ => false) ops).map VMap.showAns) := by
+  unfold C08.vmapAnswer
+  rw [C08_visitmap_refines]
+
+/-- **visitor return types** (`dfsvx`): a script accepted for its return type (`kindOkB`) is interpreted
+character by character — the control for the `k`-th event is the `k`-th character (`e` = `Err(_)` breaks,
+as `ControlFlow for Result` documents), nothing is skipped. -/
+theorem C08_dfsvx_script_check (kind script : String) (h : C08.kindOkB kind script = true) :
+    (C08.parseCtlX script).length = script.toList.length :=
+  TravProofs.parseCtlX_length kind script h
+
+/-- the result part of a `dfsvx` answer is handed to `judgeEvents` as `break` only if the traversal
+returned exactly the value the visitor produced at the last event (`Break(k)` / `Err(k)` with `k` the
+index of that event) and the script breaks there; `cont` and `panic` pass unchanged.  So the clauses of
+`C08_judgeEvents_sound` / `C08_judgeEvents_clauses` hold of every accepted `dfsvx` answer, for all four
+return types. -/
+theorem C08_dfsvx_result_check (script : String) (ctl : List Ctl) (n : Nat) (ri res : String)
+    (h : C08.normResult script ctl n ri = some res) :
+    (res = ri ∧ (ri = "cont" ∨ ri = "panic")) ∨
+    (res = "break" ∧ 0 < n ∧ ri = C08.breakTok script (n - 1) ∧ ctlAt ctl (n - 1) = .brk) :=
+  TravProofs.normResult_cases script ctl n ri res h
+
+/-- non-vacuity: a script with all four answers is accepted for `Result<Control<B>, E>`, rejected for
+`Result<(), E>`; `Err` at event 3 is reported as `err@3`, and a wrong payload is not accepted. -/
+example : C08.kindOkB "resctl" "cpbe" = true ∧ C08.kindOkB "resunit" "cpbe" = false ∧
+    C08.normResult "ccce" (C08.parseCtlX "ccce") 4 "err@3" = some "break" ∧
+    C08.normResult "ccce" (C08.parseCtlX "ccce") 4 "err@2" = none ∧
+    C08.normResult "ccce" (C08.parseCtlX "ccce") 4 "break@3" = none := by decide
+
+/-- **API routes**: `X::new(g, s)`, `Default::default()` + `reset(g)` + `move_to(s)`, `X::empty(g)` +
+`move_to(s)` and a walker around any foreign map + `reset(g)` + `move_to(s)` all denote the fresh walker at
+`s` — in the model `reset` forgets the state it is applied to. -/
+theorem C08_walker_new_canonical (d : Dfs) (p : Post) (s : Nat) :
+    d.reset.moveTo s = { stack := [s], disc := [] } ∧
+    (({} : Post).moveTo s = { stack := [s], disc := [], fin := [] }) ∧
+    (p.moveTo s).disc = p.disc ∧ (p.moveTo s).fin = p.fin := ⟨rfl, rfl, rfl, rfl⟩
+
+/-- a `reset` right after the creation of the walker changes nothing (canonical scripts of the routes
+`R`, `E`, `S<i>` at the start). -/
+theorem C08_script_leading_reset (v : View) (cmds : List C08.Cmd) :
+    C08.runDfs v (.reset :: cmds) = C08.runDfs v cmds ∧ C08.runPost v (.reset :: cmds) = C08.runPost v cmds :=
+  ⟨rfl, rfl⟩
+
+/-- non-vacuity of the `VisitMap` model: visit, visit again, unvisit, unvisit again, visit, reset, query. -/
+example : VMap.run [] [.visit 3, .visit 3, .unvisit 3, .unvisit 3, .visit 3, .isVisited 3, .reset, .isVisited 3] =
+    [some true, some false, some true, some false, some true, some true, none, some false] := by decide
+
+/-- the keys of a `vmap` request are nodes of the view (`nodesB`, checked on every request). -/
+theorem C08_vmap_keys_check (v : View) (ops : List VMap.Op) (h : C08.nodesB v (VMap.opIds ops) = true) :
+    ∀ x, x ∈ VMap.opIds ops → x ∈ v.g.nodes :=
+  TravProofs.nodesB_sound h
 
 end PetgraphModel.C08T
